@@ -227,7 +227,8 @@ CLAIMS['C13'] = dict(
     text="Record-level proof on the real AST of Atoms.save_lmpdat (file object recording every write, structure of arbitrary size, both atom "
          "styles, scenarios with everything present / everything absent): count lines state the lengths, type-count lines state the table sizes and "
          "are written iff positive, box lines state 0..cell[i][i], the tilt line cell[1][0], cell[2][0], cell[2][1] and is written exactly for "
-         "non-orthorhombic cells, sections appear in LAMMPS order, and every record of Masses / * Coeffs / Atoms / Bonds / Angles / Dihedrals / "
+         "non-orthorhombic cells (cell_is_orthorhombic is proved to hold exactly when every off-diagonal entry is zero), a file is written only for a cell in "
+         "LAMMPS orientation and refused only otherwise, sections appear in LAMMPS order, and every record of Masses / * Coeffs / Atoms / Bonds / Angles / Dihedrals / "
          "Impropers carries the 1-based id of its position, the 1-based type and atom ids, charge, molecule id and coordinates of that item in the "
          "order of the style. Reader side: the decoding statements of load_lmpdat (style switch, get_types_tups) are executed on token arrays "
          "carrying exactly what the writer was proved to emit; proved for both styles and all combinations of empty / non-empty sections that "
